@@ -50,13 +50,11 @@ SUPPRESS = {
     (P + "_ymd._resolve_from_stridxs", "assert len(missing) == len(key) == 1"): "CHECKED: the only caller guards the call with len(self) == 3 and len(strids) == 2 (or all labelled)",
     (P + "_ymd._resolve_from_stridxs", "assert len(self) == len(strids)"): "CHECKED: same caller guard",
     (P + "parserinfo.convertyear", "assert year >= 0"): "the year is int() of a lexer digit run or of a non-negative Decimal; the lexer never produces a sign inside a number",
-    (P + "parser._recombine_skipped", "skipped_idxs[i - 1]"): "CHECKED: guarded by i > 0 in the same condition",
     (P + "parser._recombine_skipped", "skipped_tokens[-1]"): "taken only when idx-1 was the previous skipped index, i.e. after at least one append",
     (P + "parser._recombine_skipped", "skipped_tokens[-1] + tokens[idx]"): "same",
     (P + "parser._recombine_skipped", "tokens[idx]"): "CHECKED: every skipped index is the scan cursor i < len(tokens) at the time it was appended",
     ("dateutil.relativedelta.relativedelta.__add__", "assert 1 <= abs(self.months) <= 12"): "class invariant |months| <= 11 after _fix (proved by C16.FIX) under `if self.months`",
     ("dateutil.relativedelta.relativedelta.__init__", "weekdays[weekday]"): "index is parserinfo.weekday(): position in the 7-entry WEEKDAYS table (C02.NAMES)",
-    ("dateutil.relativedelta.relativedelta.__init__", "ydayidx[idx - 1]"): "else-branch of idx == 0 inside enumerate(): idx >= 1",
     (P + "_tzparser.parse", "l[n]"): "n ranges over set(range(len_l)) minus used indices",
 }
 
@@ -306,6 +304,3 @@ def justify(ctx):
     inside = set(id(x) for l_ in loop for x in ast.walk(l_))
     ok7 = len(aps) >= 2 and all(src(a.args[0]) == "i" and id(a) in inside for a in aps)
     ctx.ob("C14.JUSTIFY", pp, "every skipped index is the scan cursor i appended inside `while i < len_l`", ok7, construct="skipped_idxs.append(i)", detail="%d sites" % len(aps))
-    rc = prog.func("parser._parser.parser._recombine_skipped", "C14.JUSTIFY")
-    tests = [src(n.test) for n in walk_local(rc.node) if isinstance(n, ast.If)]
-    ctx.ob("C14.JUSTIFY", rc, "the look-back skipped_idxs[i - 1] is evaluated only after `i > 0`", tests == ["i > 0 and idx - 1 == skipped_idxs[i - 1]"], construct="recombination test", detail=str(tests))
